@@ -298,6 +298,62 @@ theorem run_log_shape : ∀ (fuel : Nat) (s : St), ∃ evs, (run P fuel s).log =
       intro b' tl h
       simp at h
 
+/-! ### every log of the model is loop-shaped -/
+
+theorem shape_iter (b : Box) (st : Nat) (hst : st = 0 ∨ st = 2) :
+    (evs3 P b).foldlM shapeStep st = some 2 := by
+  rcases hst with h | h <;> subst h <;> rfl
+
+theorem shape_run : ∀ (fuel : Nat) (s : St) (pre : List Ev) (st : Nat), (st = 0 ∨ st = 2) →
+    s.log = pre → ∀ (base : List Ev) (rest0 : List Ev), pre = base ++ rest0 → rest0.foldlM shapeStep 0 = some st →
+    ∃ rest st', (run P fuel s).log = base ++ rest ∧ rest.foldlM shapeStep 0 = some st' ∧ (st' = 0 ∨ st' = 2)
+  | 0, s, pre, st, hst, hl, base, rest0, hp, hf => ⟨rest0, st, by simp [run, hl, hp], hf, hst⟩
+  | fuel + 1, s, pre, st, hst, hl, base, rest0, hp, hf => by
+    unfold run
+    split
+    · exact ⟨rest0, st, by rw [hl, hp], hf, hst⟩
+    · rename_i s' hs
+      obtain ⟨b, _, rfl⟩ := step_some hs
+      -- the events of this iteration
+      have : ∃ evs st2, (stepOn P s b).log = s.log ++ evs ∧ evs.foldlM shapeStep st = some st2 ∧ (st2 = 0 ∨ st2 = 2) := by
+        unfold stepOn
+        split
+        · exact ⟨_, 2, rfl, shape_iter b st hst, Or.inr rfl⟩
+        · split
+          · exact ⟨_, 2, rfl, shape_iter b st hst, Or.inr rfl⟩
+          · refine ⟨_, 0, rfl, ?_, Or.inl rfl⟩
+            rw [List.foldlM_append, shape_iter b st hst]
+            rfl
+      obtain ⟨evs, st2, hl2, hf2, hst2⟩ := this
+      refine shape_run fuel (stepOn P s b) _ st2 hst2 rfl base (rest0 ++ evs) ?_ ?_
+      · rw [hl2, hl, hp, List.append_assoc]
+      · rw [List.foldlM_append, hf]
+        exact hf2
+
+/-- **every log emitted by the model is loop-shaped** (the measure used by the driver is not vacuous) -/
+theorem run_loopShaped (root : Box) (fuel : Nat) : loopShaped (run P fuel (St.init root)).log = true := by
+  obtain ⟨rest, st', hlog, hf, hst⟩ := shape_run (P := P) fuel (St.init root) _ 0 (Or.inl rfl) rfl [Ev.push root] [] rfl rfl
+  obtain ⟨evs', hlog', hshape⟩ := run_log_shape (P := P) fuel (St.init root)
+  have hl0 : (St.init root).log = [Ev.push root] := rfl
+  rw [hl0] at hlog'
+  have hev : evs' = rest := List.append_cancel_left (hlog'.symm.trans hlog)
+  subst hev
+  unfold loopShaped
+  rw [hlog]
+  have hd : ([Ev.push root] ++ evs').dropWhile isPush = evs' := by
+    simp only [List.singleton_append, List.dropWhile_cons, isPush, if_true]
+    cases evs' with
+    | nil => rfl
+    | cons e tl =>
+      cases e with
+      | push b => exact absurd rfl (hshape b tl)
+      | top _ => rfl
+      | ctc _ _ => rfl
+      | pop _ => rfl
+      | flush => rfl
+  rw [hd, hf]
+  rcases hst with h | h <;> subst h <;> rfl
+
 /-- **The stage certificate of C18 (`Cover.stageOk`) accepts every resumed run of the model**: validated boxes carried over
     unchanged, every other box of the previous paving re-queued, log accepted. -/
 theorem resume_stage (prev : List Item) (fuel : Nat)
